@@ -126,6 +126,22 @@ def new_handler():
     async def h_raises_recursion(message, session_id):
         raise RecursionError("deep")
 
+    async def h_reenter(message, session_id):
+        # re-entrancy: nested dispatches on the same handler with the same session id, then an answer
+        from chuk_mcp.protocol.messages.json_rpc_message import JSONRPCMessage as Legacy
+
+        await ph.handle_message(Legacy.model_validate({"jsonrpc": "2.0", "id": "nested", "method": "ping"}), session_id)
+        await ph.handle_message(Legacy.model_validate({"jsonrpc": "2.0", "method": "notifications/cancelled"}), session_id)
+        if getattr(message, "id", None) is None:
+            return None, None
+        return ph.create_response(message.id, {"ok": 1}), None
+
+    async def h_reenter_raises(message, session_id):
+        await h_reenter(message, session_id)
+        raise RuntimeError("after nested dispatches")
+
+    ph.register_method("verif/reenter", h_reenter)
+    ph.register_method("verif/reenter-then-raises", h_reenter_raises)
     ph.register_method("verif/raises-keyerror", h_raises_key)
     ph.register_method("verif/raises-unprintable", h_raises_unprintable)
     ph.register_method("verif/raises-recursion", h_raises_recursion)
@@ -155,6 +171,10 @@ def kind_of(method, msgid):
         return "handlerRaised"
     if method == "verif/nonsense":
         return "handlerNonsense"
+    if method == "verif/reenter-then-raises":
+        return "handlerRaised"
+    if method == "verif/reenter":
+        return "handlerReturned"
     if method in ("ping", "verif/answers"):
         return "handlerReturned" if msgid is not None else "handlerRaised"  # no envelope for a null id
     if method in ("notifications/initialized", "verif/silent"):
